@@ -289,8 +289,16 @@ def _validator_is_pure(v: ast.expr, module: Optional[ast.Module], where: str, _d
             raise TranslateError(f'{where}: validator {v.id} does more than look and raise')
         if not defs and v.id in ('int', 'str', 'float', 'bool', 'list', 'set', 'dict', 'tuple', 'Vec', 'Angle', 'Matrix'):
             return
+        if not defs and module is not None and v.id[:1].isupper() and any(
+                isinstance(st, ast.ImportFrom) and any((a.asname or a.name) == v.id for a in st.names) for st in ast.walk(module)):
+            return                              # an imported class (instance_of((Vec, FrozenVec)))
         raise TranslateError(f'{where}: unknown validator name {v.id}')
     raise TranslateError(f'{where}: unknown attrs validator `{ast.unparse(v)[:60]}`')
+
+
+def _is_constant(x: ast.expr) -> bool:
+    return isinstance(x, ast.Constant) or (isinstance(x, ast.UnaryOp) and isinstance(x.operand, ast.Constant)) \
+        or (isinstance(x, ast.Tuple) and all(_is_constant(y) for y in x.elts))
 
 
 def _default_is_unshared(e: ast.expr, imm_kind: bool, converted: bool, where: str) -> None:
@@ -324,6 +332,7 @@ class ClassInfo:
         self.name = cls.name
         self.node = cls
         self.wrap_alt: dict[str, str] = {}       # attrs field -> the BETTER wrap its converter applies on some paths only
+        self.noninit: dict[str, ast.expr] = {}   # attrs init=False fields with a constant default (bookkeeping, not data)
         ann = _class_annotations(cls)
         self.params: list[str] = []                       # constructor parameters in order (without self)
         self.kwonly: list[str] = []
@@ -359,6 +368,18 @@ class ClassInfo:
                         if n.value.args:
                             raise TranslateError(f'{where}: positional arguments of attrs.field')
                         kws = {kw.arg: kw.value for kw in n.value.keywords}
+                        if 'init' in kws and isinstance(kws['init'], ast.Constant) and kws['init'].value is False:
+                            # not a constructor parameter: attrs stores the default, __attrs_post_init__ may store constants.
+                            # With a constant default it is the same for every constructed object — bookkeeping, not data
+                            # that a copy has to carry over; it is left out of the data fields (copy() cannot pass it).
+                            extra = set(kws) - {'init', 'default'} - _FIELD_KEYWORDS_IGNORED
+                            if extra or 'default' not in kws or not _is_constant(kws['default']) or not imm_kind:
+                                raise TranslateError(f'{where}: an init=False field must be of an immutable kind with a constant default '
+                                                     f'and nothing else ({sorted(extra)})')
+                            self.noninit[f] = kws['default']
+                            self.fields.pop()
+                            del self.ann[f]
+                            continue
                         for k, v in kws.items():
                             if k == 'converter':
                                 wraps = _converter_wraps(v, module, where)
@@ -486,6 +507,8 @@ class ClassInfo:
                 continue
             f = _self_attr(st.targets[0]) if isinstance(st, ast.Assign) and len(st.targets) == 1 else None
             v = st.value if isinstance(st, ast.Assign) else None
+            if f is not None and f in self.noninit and v is not None and _is_constant(v):
+                continue                      # a constant into a bookkeeping field: the same for every constructed object
             if f is None or f not in self.feeds or not isinstance(v, ast.Call) or len(v.args) != 1 or v.keywords \
                     or _self_attr(v.args[0]) != f:
                 raise TranslateError(f'{cls.name}.__attrs_post_init__: unrecognised statement `{ast.unparse(st)[:60]}`')
